@@ -79,3 +79,36 @@ Lemma cval_eqb_refl {V} (peq : V -> V -> bool) : (forall x, peq x x = true) -> f
 Proof. intros H a. unfold cval_eqb. rewrite !Z.eqb_refl, (option_eqb_refl _ H). reflexivity. Qed.
 Lemma cval_row_eqb_refl (a : cval row) : cval_eqb row_eqb a a = true.
 Proof. apply cval_eqb_refl. exact row_eqb_refl. Qed.
+
+(* the object equalities of the two configurations decide equality (content hashing is
+   injective on the model's objects) *)
+Lemma vobj_eqb_eq a b : vobj_eqb a b = true -> a = b.
+Proof.
+  destruct a as [l1 s1 bf1 c1 p1 m1], b as [l2 s2 bf2 c2 p2 m2]. unfold vobj_eqb. cbn. intros E.
+  repeat (apply andb_true_iff in E; let E' := fresh "E" in destruct E as [E E']).
+  assert (ZE : forall x y : Z, (x =? y) = true -> x = y) by (intros x y H; apply Z.eqb_eq; exact H).
+  apply (option_eqb_eq Z.eqb ZE) in E. apply (option_eqb_eq Z.eqb ZE) in E2.
+  apply (list_eqb_eq Z.eqb ZE) in E1. apply ZE in E4, E3, E0.
+  subst. reflexivity.
+Qed.
+
+Lemma tree_eqb_gen_eq {V} (peq : V -> V -> bool) :
+  (forall x y, peq x y = true -> x = y) -> forall a b : tree (cval V), tree_eqb_gen peq a b = true -> a = b.
+Proof.
+  intros H. unfold tree_eqb_gen. apply list_eqb_eq. intros [k1 v1] [k2 v2] E. cbn in E.
+  apply andb_true_iff in E. destruct E as [E1 E2]. apply sval_eqb_eq in E1. apply (cval_eqb_eq _ H) in E2.
+  subst. reflexivity.
+Qed.
+
+Lemma obj_eqb_gen_eq {V} (peq : V -> V -> bool) :
+  (forall x y, peq x y = true -> x = y) -> forall a b : obj V, obj_eqb_gen peq a b = true -> a = b.
+Proof.
+  intros H [t|v] [t'|v']; cbn; try discriminate; intros E.
+  - f_equal. exact (tree_eqb_gen_eq _ H _ _ E).
+  - f_equal. exact (vobj_eqb_eq _ _ E).
+Qed.
+
+Lemma obj_eqb_rows_eq a b : obj_eqb_rows a b = true -> a = b.
+Proof. apply obj_eqb_gen_eq. exact row_eqb_eq. Qed.
+Lemma obj_eqb_plain_eq a b : obj_eqb_plain a b = true -> a = b.
+Proof. apply obj_eqb_gen_eq. intros x y E. apply Z.eqb_eq. exact E. Qed.
